@@ -36,9 +36,12 @@ def corpus(prop):
 def gen_texts(ctx, quick, exhaustive_len=None):
     """(label, list of byte strings) groups"""
     rng = ctx.rng
-    L = exhaustive_len or (4 if quick else 6)
+    L = exhaustive_len or (4 if quick else 5)
     groups = []
     groups.append(("exhaustive16<=%d" % L, list(jsongen.exhaustive(jsongen.ALPHA16, L))))
+    if not quick:
+        # length 6..8 over the same alphabet: a sample (all 16.7M strings of length 6 need ~12 GB in this driver)
+        groups.append(("sampled16 6..8", list(dict.fromkeys(b"".join(rng.choice(jsongen.ALPHA16) for _ in range(rng.randint(6, 8))) for _ in range(1500000)))))
     groups.append(("words<=%d" % (4 if quick else 5), list(jsongen.exhaustive(jsongen.ALPHA_WORDS, 4 if quick else 5))))
     nv = 1500 if quick else 60000
     valid = [jsongen.rand_text(rng) for _ in range(nv)]
